@@ -105,10 +105,14 @@ def handle (line : String) : String :=
     trace c 12 (start c w) script []
   | some "loop" =>
     let role := if kv t "role" == "target" then Role.target else Role.initiator
+    let pt := match kv t "point" with | "dps" => LoopPt.dps | "first" => .first | _ => .established
     (match causeOf (kv t "cause") with
-     | some c => let e := loopEnd role c
-                 s!"terminate={b01 e.terminateCalled} leave={leaveName e.leave} connect={connectName (connectEnd role c)} shutdown={b01 (terminateShutsDown (kv t "cause" == "ioerror-persistent"))}"
+     | some c => let e := loopEnd role pt c
+                 s!"terminate={b01 e.terminateCalled} leave={leaveName e.leave} connect={connectName (connectEnd role pt c)} shutdown={b01 (terminateShutsDown (kv t "cause" == "ioerror-persistent"))}"
      | none => "bad-cause")
+  | some "latebind" =>
+    (match lateBind termSteps (nat t "k") (nat t "a") with
+     | .refused => "refused" | .shutDown => "shutdown" | .leaked => "leaked")
   | some "service" =>
     let w := (terminate (parseWorld t)).1
     let p := match kv t "at" with
